@@ -180,7 +180,7 @@ func drawC11Spec(t *rapid.T, label string, interop bool) c11Spec {
 func TestC11(t *testing.T) {
 	rec := ev.Get("C11")
 	rec.Rule("ConfigSpecs: id 0..255, KEM ids, public keys of 0..200 bytes (valid X25519 points for interop cases), 0..8 cipher suites incl. unknown ids, public names of 1..255 bytes (and invalid lengths 0, 256..300), lists of 0..6 configs, and lists sized around the 65535-byte limit of the length prefix (largest that fits / one more / many more). Oracles: harness decoder written from draft section 4 reads Bytes() and agrees field by field; Spec()/ParseConfigList return the generated specs in order; harness-encoded configs parse to the same fields (both directions); crypto/tls client+server accept interop configs (outer SNI = public name, config id named, ECHAccepted on both sides); every strict prefix of a valid list is rejected; trailing bytes beyond declared lengths do not change the result; length fields +-1 never panic; one length field of a valid config changed by -4..+200: no panic and the result (acceptance and fields) is independent of every byte beyond the config's declared length, stand-alone and inside a list. distinct = encoding hash; non-trivial = name length not in {11,18} or id != 1 or non-default suites")
-	rec.Mandatory("suites_cut_mid_suite", "name_len1", "name_len239", "name_len240", "name_len255", "list0", "list_ge3", "interop", "single_suite_aead1", "single_suite_aead2", "single_suite_aead3", "invalid_name_len", "prefix_rejected", "newconfig", "lenfield:contents_length", "lenfield:public_key_length", "lenfield:cipher_suites_length", "lenfield:public_name_length", "lenfield:extensions_length", "list_around_64k")
+	rec.Mandatory("suites_cut_mid_suite", "name_len1", "name_len239", "name_len240", "name_len255", "list0", "list_ge3", "interop", "single_suite_aead1", "single_suite_aead2", "single_suite_aead3", "invalid_name_len", "prefix_rejected", "newconfig", "lenfield:contents_length", "lenfield:public_key_length", "lenfield:cipher_suites_length", "lenfield:public_name_length", "lenfield:extensions_length", "list_around_64k", "unknown_version_entry")
 	rapid.Check(t, func(t *rapid.T) {
 		interop := rapid.IntRange(0, 9).Draw(t, "interop") == 0
 		n := rapid.IntRange(0, 6).Draw(t, "nconfigs")
@@ -474,6 +474,47 @@ func TestC11(t *testing.T) {
 				}
 			}
 			cl = append(cl, "list_around_64k")
+		}
+		// (7) an entry of a version this code does not know, whose opaque body happens to hold the
+		// bytes of a valid ECHConfig: the list is refused, or the entry is skipped as a whole -
+		// what is inside its declared length is never taken for list entries
+		if len(cfgs) > 0 && rapid.IntRange(0, 3).Draw(t, "unknown_version_entry") == 0 {
+			embedded := hello.ConfigBytes(200, 0x20, make([]byte, 32), hello.AllSuites, 30, []byte("embedded.example"))
+			body := append([]byte{}, embedded...)
+			if rapid.Bool().Draw(t, "unknown_odd_body") {
+				body = append([]byte{0x55}, body...)
+			}
+			ver := []uint16{0xfe0c, 0xfe0a, 0xff03, 0x0001}[rapid.IntRange(0, 3).Draw(t, "unknown_version")]
+			entry := append([]byte{byte(ver >> 8), byte(ver), byte(len(body) >> 8), byte(len(body))}, body...)
+			pos := rapid.IntRange(0, len(cfgs)).Draw(t, "unknown_pos")
+			var payload []byte
+			for i, c := range cfgs {
+				if i == pos {
+					payload = append(payload, entry...)
+				}
+				payload = append(payload, c...)
+			}
+			if pos == len(cfgs) {
+				payload = append(payload, entry...)
+			}
+			if len(payload) <= 65535 {
+				l := append([]byte{byte(len(payload) >> 8), byte(len(payload))}, payload...)
+				var ps []ech.ConfigSpec
+				e := guard(func() error { var e error; ps, e = ech.ParseConfigList(l); return e })
+				if isPanic(e) {
+					ev.Violation(t, "C11", map[string]any{"bytes": hx(l)}, "ParseConfigList panicked on a list with an unknown-version entry: %v", e)
+				}
+				if e == nil {
+					ok := len(ps) == len(specs)
+					for i := 0; ok && i < len(ps); i++ {
+						ok = sameSpec(ps[i], specs[i].ID, specs[i].KEM, specs[i].Pub, specs[i].Suites, specs[i].Name) == ""
+					}
+					if !ok {
+						ev.Violation(t, "C11", map[string]any{"bytes": hx(l), "unknown_entry_at": pos}, "a list with an entry of unknown version %#04x was accepted but does not parse to exactly its %d known-version configs (%d returned): bytes inside the unknown entry's declared length were interpreted", ver, len(specs), len(ps))
+					}
+				}
+				cl = append(cl, "unknown_version_entry")
+			}
 		}
 		// a cipher_suites vector cut in the middle of a suite (all enclosing lengths consistent)
 		if rapid.IntRange(0, 3).Draw(t, "odd_suites") == 0 {
